@@ -15,6 +15,35 @@ CLAIMS = {
             'interference; the exact call log (which functions, order, laziness of switches and cache hits) is compared between the '
             'Coq machine and the real engine on every generated case, plus direct oracles on the implementation log.',
             'the "exactly the needed functions" half is decided by model/implementation agreement on the call log (a sample) and by oracles'),
+    'C04': ('Theorem over ALL histories of calls and clears on any sequence of graphs sharing the caches (rebuilds, variants), with arbitrary '
+            'Good-preserving interference: every call returns the value of the cache-free recursive semantics; via the store invariant '
+            '"every entry key is a hash whose inverse reading is the stored value" (hash soundness over the regenerated hash makers) and '
+            'the machine/evaluator/spec refinement. Real pipelines with CacheToRam/CacheToDisk are run against the model on generated histories.',
+            'success direction (no user function raises on the path of a cache node); keys without numeric leaves (else known finding F3); '
+            'CacheColumns is not in the VM model: decided by oracles against the cache-free pipeline; serializer round trip and real disk trusted'),
+    'C05': ('Theorems: the value of every node is the inverse reading of its node hash, for all graphs without Silent arguments and all '
+            'interpretations of the user functions (over the regenerated _make_hash bodies); hence equal hashes give equal values across graphs; '
+            'Silent independence exactly; digests exact, Python == exact without numeric leaves. Hash terms of model and engine are compared on every case.',
+            'pickler/digest injectivity trusted; External markers not modelled; F3 (== on leaves) is a known finding'),
+    'C06': ('Theorems: the regenerated static hash of a Merge switch determines the routing table and the branch hashes; function, product and '
+            'constant edges are injective in their parts; the input placeholder is no constant; the pinned body is refuted (F1). Graph.hash() terms of '
+            'model and engine are compared; families of sub-pipeline variants are checked for collisions on the real code.',
+            'the full "equal static hash => same function of the id" is proved per edge (injectivity), composed only by the collision oracle; '
+            'Filter/GroupBy/Join/Split edges are covered by translated hash makers and the oracle, not by the VM model'),
+    'C07': ('Theorems: identity/cache/CheckIds/column/barrier edges are hash-transparent, a switch reports the selected branch hash, Silent '
+            'arguments do not enter the hash (regenerated hash makers). The digests of real pipelines are compared under 12 neutral rewrites and in 3 '
+            'interpreters with different string-hash seeds.',
+            'determinism of tarn.pickler across interpreters is observed, not proved; in-process equality of per-connection function objects (GroupBy/Join/Split) is outside the rewrites tested'),
+    'C08': ('Theorems: LRU bound for every operation list incl. clear over the regenerated clear(); recency ("the cap most recently touched keys hit") '
+            'on an abstract LRU table; shards partition the keys and contain the requested key (regenerated _get_shard arithmetic); a hit requests nothing '
+            'upstream (regenerated CacheEdge.evaluate). MemoryCache op lists, _get_shard and cached pipelines are run against the model.',
+            'pylru itself is third-party (modelled, compared on op lists); float shard sizes enter as ceil(f*len) computed by the harness; '
+            'hits across processes rest on C07'),
+    'C11': ('Theorem: a call returns the cache-free value and keeps the store invariant under ANY environment that may change the shared caches '
+            'before each of its cache accesses as long as entries stay Good (time-dependent, so every schedule of every number of threads), and its '
+            'own writes are Good (guarantee); lock scopes and per-call eviction tables are regenerated facts. Real threads are run under all 2-thread '
+            'schedules of bounded length with a lock-checking proxy table.',
+            'granularity of switches = user-function calls and cache get/set; pre-emption inside pylru/dict under the lock and tarn lockers not modelled'),
 }
 
 
